@@ -2,9 +2,10 @@
 # run.sh <id> <tier>   | run.sh build | run.sh replay <file> | run.sh baseline-off
 # Always rebuilds the driver from /repo's current working tree (replace => /repo).
 set -u
-cd /verif
+cd "$(dirname "$(readlink -f "$0")")"
+export VERIF_ROOT="$PWD"
 export GOFLAGS=-mod=mod GOPROXY=off GOSUMDB=off GOTOOLCHAIN=local CGO_ENABLED=1
-BIN=/verif/.work/bin
+BIN="$VERIF_ROOT/.work/bin"
 mkdir -p "$BIN"
 
 build() {
